@@ -200,6 +200,106 @@ def model_runs(sc, runs):
     return res
 
 
+def explore_scenarios(ctx, exe, scen, max_runs, ncorpus, oracle_kinds):
+    """enumerate the schedules of every scenario on the real channel.c, co-simulate each run with the concurrent model and
+    evaluate the implementation-side oracles named in oracle_kinds"""
+    total_runs = validated = nontrivial = exhaustive_scen = 0
+    kinds = {}
+    distinct = set()
+    samples = []
+    for sc in scen:
+        runs, nruns, truncated = enumerate_schedules(exe, sc, max_runs)
+        total_runs += nruns
+        if not truncated:
+            exhaustive_scen += 1
+        models = model_runs(sc, runs)
+        for r, m in zip(runs, models + [None] * (len(runs) - len(models))):
+            for d in r["dec"]:
+                if d[0] != 0:
+                    kinds[d[1]] = kinds.get(d[1], 0) + 1
+            sched = [d[0] for d in r["dec"]]
+            hits = [o for o in r["oracle"] if len(o.split()) > 1 and o.split()[1] in oracle_kinds]
+            if hits:
+                ctx.violation("oracle", "h_chan_conc:%s" % hits[0].split()[1],
+                              "real channel.c: %s under schedule %s of scenario %s" % (hits[0], sched, sc),
+                              {"harness": "h_chan_conc", "scenario": sc, "schedule": sched})
+            elif r["end"] and ("CRASH" in r["end"] or "MISUSE" in r["end"] or "STEP-LIMIT" in r["end"]):
+                ctx.violation("crash", "h_chan_conc:%s" % r["end"].split()[1],
+                              "real channel.c under detsched ended with %s, schedule %s, scenario %s" % (r["end"], sched, sc),
+                              {"harness": "h_chan_conc", "scenario": sc, "schedule": sched})
+            if m is None:
+                ctx.corr_broken.append({"what": "model produced no run", "scenario": sc})
+                continue
+            d = C.first_diff(list(r["lines"]), list(m))
+            if d is None:
+                validated += 1
+            elif len(ctx.corr_broken) < 5:
+                ctx.corr_broken.append({"what": "channel.c under detsched and the concurrent model disagree", "scenario": sc,
+                                        "schedule": sched, "line": d,
+                                        "impl": r["lines"][d] if d < len(r["lines"]) else "<eof>",
+                                        "model": m[d] if d < len(m) else "<eof>"})
+            ks = set(x[1] for x in r["dec"] if x[0] != 0)
+            if "wait" in ks or "reacq" in ks:
+                nontrivial += 1
+                distinct.add(C.sha(str(sc) + str(sched)))
+        if len(samples) < 3 and runs:
+            samples.append({"scenario": sc, "schedule": [d[0] for d in runs[0]["dec"]], "end": runs[0]["end"]})
+        if (len(ctx.violations) > 3 or len(ctx.corr_broken) > 3) and scen.index(sc) >= ncorpus:
+            break
+    return {"total_runs": total_runs, "validated": validated, "nontrivial": nontrivial, "exhaustive_scen": exhaustive_scen,
+            "kinds": kinds, "distinct": distinct, "samples": samples}
+
+
+def gen_overtake(rng, count):
+    """C01/C02 under concurrency: two or three readers, the writer blocks for lack of space, and while it sleeps the reader that
+    was furthest behind overtakes another one — the writer has to size its region against the reader that is slowest *now*."""
+    scen = []
+    for _ in range(count):
+        cap = rng.choice([8, 10, 16, 24])
+        nr = rng.choice([2, 2, 3])
+        W = rng.randrange(cap // 2 + 1, cap)            # committed bytes, one write
+        slow = rng.randrange(nr)                          # consumes nothing before the writer blocks, then everything
+        pre = ["join"] * nr + ["runmap %d 0" % i for i in range(nr)] + ["wmap %d" % W, "wcommit"] + ["rmap %d" % i for i in range(nr)]
+        part = {}
+        for i in range(nr):
+            if i != slow:
+                part[i] = rng.randrange(1, W)
+                pre.append("runmap %d %d" % (i, part[i]))
+        b = min(part.values())
+        lo = max(cap - W, b) + 1                          # fits neither behind the data nor in front of the slowest other reader
+        n = rng.randrange(lo, W + 1) if lo <= W else rng.randrange(1, cap)
+        threads = ["wmap %d ; wcommit" % n, "runmap %d 99" % slow]
+        if rng.random() < 0.5:
+            j = min(part, key=part.get)
+            threads.append("rmap %d ; runmap %d 99" % (j, j))
+        scen.append({"cap": cap, "pre": pre, "threads": threads})
+    return scen
+
+
+def conc_part(ctx, oracle_kinds, nscen, max_runs):
+    """the concurrent part of the C01 / C02 checks (their sequential model assumes atomic calls; what a writer does after it has
+    slept is outside that model): directed + general scenarios on detsched, co-simulated with the concurrent model"""
+    exe = build(ctx)
+    if not exe:
+        return
+    scen = []
+    for f in C.corpus_files("chan-conc"):
+        sc = {"cap": 16, "pre": [], "threads": []}
+        for l in open(f):
+            l = l.strip()
+            if l.startswith("cap "): sc["cap"] = int(l[4:])
+            elif l.startswith("pre "): sc["pre"].append(l[4:])
+            elif l.startswith("thread "): sc["threads"].append(l[7:])
+        scen.append(sc)
+    ncorpus = len(scen)
+    scen += gen_overtake(ctx.rng, nscen) + gen_scenarios(ctx.rng, nscen // 2, True)
+    st = explore_scenarios(ctx, exe, scen, max_runs, ncorpus, oracle_kinds)
+    ctx.cov["concurrent_part"] = {"scenarios": len(scen), "runs": st["total_runs"], "agree_with_concurrent_model": st["validated"],
+                                  "writer_slept_in": st["nontrivial"], "scenarios_enumerated_completely": st["exhaustive_scen"],
+                                  "rule": "readers overtake each other while the writer sleeps (directed) + C03's general scenarios; schedules by stateless DFS; "
+                                          "oracle: a region handed to the writer covers no unconsumed byte of any registered reader"}
+
+
 def run(ctx):
     from . import syncskel
     syncskel.regenerate(ctx)
@@ -227,48 +327,9 @@ def run(ctx):
         scen.append(sc)
     ncorpus = len(scen)
     scen += gen_scenarios(ctx.rng, nscen, thorough)
-    total_runs = validated = nontrivial = exhaustive_scen = 0
-    kinds = {}
-    distinct = set()
-    samples = []
-    for sc in scen:
-        runs, nruns, truncated = enumerate_schedules(exe, sc, max_runs)
-        total_runs += nruns
-        if not truncated:
-            exhaustive_scen += 1
-        models = model_runs(sc, runs)
-        for r, m in zip(runs, models + [None] * (len(runs) - len(models))):
-            for d in r["dec"]:
-                if d[0] != 0:
-                    kinds[d[1]] = kinds.get(d[1], 0) + 1
-            sched = [d[0] for d in r["dec"]]
-            if r["oracle"]:
-                ctx.violation("oracle", "h_chan_conc:lost-wakeup",
-                              "real channel.c: %s under schedule %s of scenario %s" % (r["oracle"][0], sched, sc),
-                              {"harness": "h_chan_conc", "scenario": sc, "schedule": sched})
-            elif r["end"] and ("CRASH" in r["end"] or "MISUSE" in r["end"] or "STEP-LIMIT" in r["end"]):
-                ctx.violation("crash", "h_chan_conc:%s" % r["end"].split()[1],
-                              "real channel.c under detsched ended with %s, schedule %s, scenario %s" % (r["end"], sched, sc),
-                              {"harness": "h_chan_conc", "scenario": sc, "schedule": sched})
-            if m is None:
-                ctx.corr_broken.append({"what": "model produced no run", "scenario": sc})
-                continue
-            d = C.first_diff(list(r["lines"]), list(m))
-            if d is None:
-                validated += 1
-            elif len(ctx.corr_broken) < 5:
-                ctx.corr_broken.append({"what": "channel.c under detsched and the concurrent model disagree", "scenario": sc,
-                                        "schedule": sched, "line": d,
-                                        "impl": r["lines"][d] if d < len(r["lines"]) else "<eof>",
-                                        "model": m[d] if d < len(m) else "<eof>"})
-            ks = set(x[1] for x in r["dec"] if x[0] != 0)
-            if "wait" in ks or "reacq" in ks:
-                nontrivial += 1
-                distinct.add(C.sha(str(sc) + str(sched)))
-        if len(samples) < 3 and runs:
-            samples.append({"scenario": sc, "schedule": [d[0] for d in runs[0]["dec"]], "end": runs[0]["end"]})
-        if (len(ctx.violations) > 3 or len(ctx.corr_broken) > 3) and scen.index(sc) >= ncorpus:
-            break
+    st = explore_scenarios(ctx, exe, scen, max_runs, ncorpus, ("lost-wakeup",))
+    total_runs, validated, nontrivial, exhaustive_scen = st["total_runs"], st["validated"], st["nontrivial"], st["exhaustive_scen"]
+    kinds, distinct, samples = st["kinds"], st["distinct"], st["samples"]
     ctx.cov["evaluations"] = total_runs
     ctx.cov["distinct_nontrivial"] = len(distinct)
     ctx.cov["traces_validated_against_impl"] = validated
